@@ -46,6 +46,10 @@ using L_K22 = List<D<P, u8>, D<F, u8>, D<P, u8>>;
 using L_K23 = List<D<P, u32>, D<F, u32>, D<P, u32>>;
 // a FixedSize span and a VaryingSize span (with its count) in one byte-wise run
 using L_K24 = List<D<F, u8>, D<P, u8>, D<V, u8>>;
+// signed and plain char: byte-sized, but not ordered the way memcmp orders them
+using L_K25 = List<D<P, i8>, D<P, i8>>;
+using L_K26 = List<D<F, i8>, D<P, u8>>;
+using L_K27 = List<D<F, char>, D<P, char>>;
 }  // namespace hx
 
 #define HX_CAT_(a, b) a##b
@@ -204,19 +208,29 @@ struct Side
     }
 
     // build a vector holding `es`; dirty: the memory held other elements before
+    // popped: one more element (the first filler element) is appended and removed again with pop_back() - the same
+    // content, reached through a history that ends with a removal at the tail
     static Vec build(const std::vector<Elem>& es, const std::vector<Elem>& filler, std::size_t fixed, int spare, int arena, int junk,
-                     bool dirty)
+                     bool dirty, bool popped = false)
     {
         L().junk = junk;
         const std::size_t extra = dirty ? payload(filler) : 0;
-        Vec v = make(es.size() + static_cast<std::size_t>(spare) + (dirty ? filler.size() : 0),
-                     payload(es) + extra + static_cast<std::size_t>(spare) * 4, fixed, arena);
+        const bool pop = popped && !filler.empty();
+        std::vector<Elem> one;
+        if (pop) one.push_back(filler.back());
+        Vec v = make(es.size() + static_cast<std::size_t>(spare) + (dirty ? filler.size() : 0) + (pop ? 1 : 0),
+                     payload(es) + extra + static_cast<std::size_t>(spare) * 4 + payload(one), fixed, arena);
         if (dirty)
         {
             for (auto& e : filler) emplace(v, e);
             v.clear();
         }
         for (auto& e : es) emplace(v, e);
+        if (pop)
+        {
+            emplace(v, one[0]);
+            v.pop_back();
+        }
         return v;
     }
 };
@@ -566,11 +580,13 @@ static void vector_level(const std::vector<Elem>& R, const std::vector<std::vect
         int spare, arena, junk;
         bool dirty;
         const char* name;
+        bool popped = false;
     };
     const Var vars[] = {{0, 0, JUNK_ZERO, false, "tight,same-arena,fresh,zero"},
                         {1, 1, JUNK_DISTINCT, false, "spare,other-arena,fresh,junk"},
                         {1, 0, JUNK_DISTINCT, true, "spare,same-arena,used,junk"},
-                        {0, 1, JUNK_PATTERN, true, "tight,other-arena,used,pattern"}};
+                        {0, 1, JUNK_PATTERN, true, "tight,other-arena,used,pattern"},
+                        {0, 0, JUNK_DISTINCT, false, "same-arena,fresh,junk,last element popped", true}};
     std::vector<typename SA::Vec> lhs;
     for (auto& s : specs) lhs.push_back(SA::build(elems(s, fixed_a), filler, fixed_a, 0, 0, JUNK_ZERO, false));
     S.vectors_built += static_cast<long>(nv);
@@ -594,7 +610,7 @@ static void vector_level(const std::vector<Elem>& R, const std::vector<std::vect
         {
             using SX = typename decltype(side_tag)::type;
             std::vector<typename SX::Vec> rhs;
-            for (auto& s : specs) rhs.push_back(SX::build(elems(s, fixed_b), filler, fixed_b, var.spare, var.arena, var.junk, var.dirty));
+            for (auto& s : specs) rhs.push_back(SX::build(elems(s, fixed_b), filler, fixed_b, var.spare, var.arena, var.junk, var.dirty, var.popped));
             S.vectors_built += static_cast<long>(nv);
             for (std::size_t i = 0; i < nv; ++i)
                 for (std::size_t j = 0; j < nv; ++j)
